@@ -314,6 +314,19 @@ func AnalyzeErr(fn *ssa.Function, e ssa.Value) *ErrFlow {
 			res.Swallows = append(res.Swallows, sw...)
 		}
 	}
+	if swallowed {
+		// path-sensitive confirmation: follow only the paths that are feasible when e is non-nil
+		res.Swallows = feasibleSwallows(fn, e, d, res.Swallows, fnReturnsErr)
+		if len(res.Swallows) == 0 {
+			swallowed = false
+			handledSomewhere = true
+			res.At = token.NoPos
+			res.Why = ""
+		} else {
+			res.At = res.Swallows[0].Pos
+			res.Why = res.Swallows[0].Why
+		}
+	}
 	switch {
 	case swallowed:
 		res.Verdict = ErrSwallowed
@@ -329,6 +342,97 @@ func AnalyzeErr(fn *ssa.Function, e ssa.Value) *ErrFlow {
 		res.Why = "never returned and never nil-tested (at most compared with a sentinel or logged)"
 	}
 	return res
+}
+
+type handlerState bool
+
+func (h handlerState) Key() string {
+	if h {
+		return "h"
+	}
+	return "-"
+}
+
+// feasibleSwallows drops the swallow edges that no feasible path takes: the function is walked
+// from the definition of e with the fact "e is non-nil" (facts travel through phis; a second
+// test of the same value follows its feasible side only, see typestate.go). If every return
+// reached that way surfaces an error, nothing is swallowed; otherwise the swallows whose edge
+// (or returning block) was reached are kept.
+func feasibleSwallows(fn *ssa.Function, e ssa.Value, d map[ssa.Value]bool, sws []Swallow, fnReturnsErr bool) []Swallow {
+	def, ok := e.(ssa.Instruction)
+	if !ok || def.Block() == nil {
+		return sws
+	}
+	if _, isPhi := e.(*ssa.Phi); isPhi {
+		return sws
+	}
+	b := def.Block()
+	idx := -1
+	for i, in := range b.Instrs {
+		if in == def {
+			idx = i
+		}
+	}
+	if idx < 0 {
+		return sws
+	}
+	facts := map[ssa.Value]bool{e: false}
+	h := THooks{Instr: func(in ssa.Instruction, st TState) TState {
+		if c, ok := in.(ssa.CallInstruction); ok && ErrorHandlers[calleeName(c)] {
+			return handlerState(true)
+		}
+		return st
+	}}
+	exits, edges := WalkTypestateFrom(b, idx+1, handlerState(false), facts, h, nil)
+	visited := map[*ssa.BasicBlock]bool{b: true}
+	for e := range edges {
+		visited[e[1]] = true
+	}
+	badExit := map[*ssa.BasicBlock]bool{}
+	anyBad := false
+	for _, ex := range exits {
+		good := false
+		if fnReturnsErr {
+			n := len(ex.Ret.Results)
+			good = ex.ErrNil == 0 || d[ex.Ret.Results[n-1]] || d[RetErr(ex.Ret)]
+		} else {
+			good = bool(ex.St.(handlerState))
+		}
+		if !good {
+			badExit[ex.Ret.Block()] = true
+			anyBad = true
+		}
+	}
+	if !anyBad {
+		// panics are not exits: keep swallows that are reachable panics
+		var out []Swallow
+		for _, sw := range sws {
+			if sw.To == nil && visited[sw.From] {
+				if _, isPanic := sw.From.Instrs[len(sw.From.Instrs)-1].(*ssa.Panic); isPanic {
+					out = append(out, sw)
+				}
+			}
+		}
+		return out
+	}
+	var out []Swallow
+	for _, sw := range sws {
+		switch {
+		case sw.To != nil:
+			if edges[[2]*ssa.BasicBlock{sw.From, sw.To}] {
+				out = append(out, sw)
+			}
+		default:
+			if _, isRet := sw.From.Instrs[len(sw.From.Instrs)-1].(*ssa.Return); isRet {
+				if badExit[sw.From] {
+					out = append(out, sw)
+				}
+			} else if visited[sw.From] {
+				out = append(out, sw)
+			}
+		}
+	}
+	return out
 }
 
 func calleeName(c ssa.CallInstruction) string {
